@@ -594,7 +594,8 @@ class Interp(object):
             while isinstance(root, View):
                 root = root.base
             self.entry_writes.append({'arr': root, 'pair': (la, lb), 'term': newt,
-                                      'loc': self.loc(node) if node is not None else None})
+                                      'loc': self.loc(node) if node is not None else None,
+                                      'loop_labels': [l for c in self.loopctx for l in c.get('labels', ())]})
         elif v.idx[0] == 'reshape':
             inv = {'unflat': 'flat', 'flat': 'unflat', 'col3': 'uncol3'}[v.idx[1]]
             full = self.lib.reshape_term(self, newt, inv, v.idx[2], node)
@@ -1741,6 +1742,17 @@ class Interp(object):
                 o.t = newt
                 if not o.fresh:
                     self.event('write', o.origin, node, via='slice-store')
+                return
+            if d[0] in ('slice', 'at') and not P.is_pw(o.t):
+                # positional store: the new value of element i depends on the position i, not only on the
+                # operands at i (uninterpreted, non-pointwise atom)
+                newt, _ = self.term_of(v, node)
+                if P.is_pw(newt):
+                    raise Unsupported('positional store of a piecewise term', node)
+                bounds = [b if isinstance(b, N.NF) else N.NF.const(b) for b in d[1:]]
+                o.t = N.fn('posupd:' + d[0], o.t, newt, *bounds)
+                if not o.fresh:
+                    self.event('write', o.origin, node, via='positional-store')
                 return
             raise Unsupported('array store pattern %r' % (d,), node)
         if isinstance(o, View):
